@@ -1486,11 +1486,18 @@ def measured_is_written(repo, col, shorts=("sharded_file_accessor",
                 # V bound once (not re-bound to the encoded bytes)
                 if len([d for d in defs.get(v, []) if d.kind != "param"]) > 1:
                     continue
+                in_msg = set()
+                for y in walk_local(fn.node):
+                    if isinstance(y, ast.Raise) or (
+                            isinstance(y, ast.Call) and
+                            (call_name(y) or "").split(".")[0] in (
+                                "logger", "logging", "print", "warnings")):
+                        in_msg |= {id(z) for z in ast.walk(y)}
                 measures = [x for x in walk_local(fn.node)
                             if isinstance(x, ast.Call) and
                             call_name(x) == "len" and len(x.args) == 1 and
                             isinstance(x.args[0], ast.Name) and
-                            x.args[0].id == v and
+                            x.args[0].id == v and id(x) not in in_msg and
                             x.lineno >= c.lineno]
                 n += 1
                 col.add(rule, fn, "write(%s(%s)) / len(%s)" % (
@@ -1592,11 +1599,18 @@ def store_creates_parents(repo, col):
                     "opened", True, "no write-open recognised in %s or its "
                     "helpers" % fn.key, undecided=True)
             continue
+        # create-on-demand (`except FileNotFoundError: makedirs; retry`) is
+        # another sound shape: not decided here
+        lazy = any(isinstance(h_, ast.ExceptHandler) and any(
+            isinstance(c_, ast.Call) and is_mkdir(f_, c_)
+            for c_ in ast.walk(h_))
+            for f_ in helper_closure(fn, 2) for h_ in ast.walk(f_.node))
         col.add(rule, fn, "parent directory created before the file is "
-                "opened", ok, "" if ok else
+                "opened", ok or lazy, "" if ok else
                 "a path opens the output file without having created its "
                 "parent directory: storing `a/b` in a dataset directory that "
-                "has no `a` yet fails", node=opens[0][1])
+                "has no `a` yet fails", node=opens[0][1],
+                undecided=lazy and not ok)
 
 
 # ---------------------------------------------------------------------
@@ -2202,11 +2216,14 @@ def identity_as_key(repo, col, shorts):
                 if used is None:
                     continue
                 n += 1
-                col.add(rule, fn, norm(c)[:40], False,
+                # a dictionary keyed by id() is sound when it also keeps the
+                # object alive: not decided; a file name / string is not
+                col.add(rule, fn, norm(c)[:40], used == "a key",
                         "%s goes into %s: once the object is freed its "
                         "address - and with it this name - is given to "
                         "another object, which then meets what the first one "
-                        "left behind" % (norm(c), used), node=c)
+                        "left behind" % (norm(c), used), node=c,
+                        undecided=used == "a key")
     return n
 
 
